@@ -624,7 +624,17 @@ func c07Generate(t *rapid.T, n, dishonest int) *c07Case {
 			c.operating = append(c.operating, group.MemberIndex(i))
 		}
 	}
-	// schedule
+	// schedule: one drawn "laggard" receiver gets one ephemeral-key message
+	// late (so messages of later phases reach it early, while it is still in
+	// an earlier state) and many duplicates
+	laggard := rapid.SampledFrom(c.operating).Draw(t, "laggard")
+	var laggardLate group.MemberIndex
+	for _, o := range rapid.Permutation(c.operating).Draw(t, "laggardLateFrom") {
+		if o != laggard {
+			laggardLate = o
+			break
+		}
+	}
 	for _, s := range c.operating {
 		for ti := range c07Types {
 			for _, r := range c.operating {
@@ -632,13 +642,27 @@ func c07Generate(t *rapid.T, n, dishonest int) *c07Case {
 					continue
 				}
 				a := c07Normal
-				switch rapid.IntRange(0, 9).Draw(t, fmt.Sprintf("act-%d/%d/%d", s, ti, r)) {
-				case 0, 1:
+				// few holds: a member that waits for a held message blocks the
+				// whole round; with many holds every round only proceeds by the
+				// stall flush and nothing ever arrives EARLY at a lagging member
+				switch rapid.IntRange(0, 29).Draw(t, fmt.Sprintf("act-%d/%d/%d", s, ti, r)) {
+				case 0:
 					a = c07Hold
 					c.nHold++
-				case 2:
+				case 1, 2:
 					a = c07Dup
 					c.nDup++
+				}
+				if r == laggard {
+					if s == laggardLate && ti == 0 {
+						if a != c07Hold {
+							c.nHold++
+						}
+						a = c07Hold
+					} else if a == c07Normal && rapid.IntRange(0, 2).Draw(t, fmt.Sprintf("lagdup-%d/%d", s, ti)) == 0 {
+						a = c07Dup
+						c.nDup++
+					}
 				}
 				c.plan[fmt.Sprintf("%d/%d/%d", s, ti, r)] = a
 			}
